@@ -17,7 +17,7 @@ EXTENDS Naturals, Sequences, FiniteSets
 
 \* label selector: "match" needs the label the labelled object carries, "mismatch" never selects, "notexists" (only a
 \* negative requirement on a key no object has) selects every object - also one without any labels
-Selected(e, o) == /\ e.kind # "mismatch"
+Selected(e, o) == /\ e.kind \notin {"mismatch", "groupMismatch"}     \* kind selectors compare group AND kind
                   /\ CASE e.label = "mismatch" -> FALSE
                         [] e.label = "match" -> o.lab = "app"
                         [] OTHER -> TRUE
